@@ -89,6 +89,8 @@ class AsyncSimTransport(httpx.AsyncBaseTransport):
         await asyncio.sleep(srv.latency("req"))
         cap = Captured(srv.next_seq(), request, body)
         cap.verify = self.verify
+        if cap.nonce is None and getattr(srv, "nonce_for", None):
+            cap.nonce = srv.nonce_for(cap)
         fault = srv.fault_for(cap)
         if fault in FAULT_BEFORE_SERVER:
             srv.bump("fault." + fault)
@@ -122,6 +124,8 @@ class SyncSimTransport(httpx.BaseTransport):
         self.yield_point("net-req")
         cap = Captured(srv.next_seq(), request, body)
         cap.verify = self.verify
+        if cap.nonce is None and getattr(srv, "nonce_for", None):
+            cap.nonce = srv.nonce_for(cap)
         fault = srv.fault_for(cap)
         if fault in FAULT_BEFORE_SERVER:
             srv.bump("fault." + fault)
